@@ -3177,7 +3177,7 @@ def groupby_scan(
         elif array.dtype.kind == "u":
             agg.dtype = np.result_type(array.dtype, np.uint)
     else:
-        agg.dtype = array.dtype if dtype is None else dtype
+        agg.dtype = array.dtype if dtype is None else np.dtype(dtype)
     agg.identity = xrdtypes._get_fill_value(agg.dtype, agg.identity)
 
     (single_axis,) = axis_  # type: ignore[misc]
